@@ -32,5 +32,6 @@ def getSingle (items : List Decl) (want : Option (Decl → Bool) := none) : R De
 
 def isInterface : Decl → Bool | .interface _ => true | _ => false
 def isEnum : Decl → Bool | .enum _ => true | _ => false
+def isExtern : Decl → Bool | .extern _ => true | _ => false
 
 end AstView
